@@ -28,6 +28,7 @@ EXPLANATION = ("a: the linear path of AlphaMemoryIndex::filter* compares with th
                "add_rule, BackwardEngine builds the index from kb.get_rules().")
 FLOORS = {"key_sites": 6}
 EXPLANATION += " b (added): inside the maintenance loops of insert and create_index the only condition on filing a fact under a field's index is `fact.get(field)` being Some, unfiltered - the same condition under which the linear scan can match it."
+EXPLANATION += ' c (added): no pointer-to-integer cast in the keyed shortcuts (a key must be a function of content, not of an address). b: the position filed by insert is `facts.len()` read before the push, whatever the variable is called.'
 
 AMI = "rete::alpha_memory_index::AlphaMemoryIndex"
 BMI = "rete::optimization::BetaMemoryIndex"
